@@ -177,7 +177,8 @@ def build(script):
     if c == 'nd':
         kw = {}
         if script.get('base') is not None:
-            kw['base'] = tuple(script['base'])
+            # `base_scalar`: the documented scalar form of `base` (one base for the exp-spaced axis, which is then the first axis)
+            kw['base'] = script['base'][0] if script.get('base_scalar') else tuple(script['base'])
         return G.GeneratorND(grid=tuple(script['grid']), r_min=tuple(script['mins']), r_max=tuple(script['maxs']),
                              methods=list(script['methods']), noisy=script['noisy'],
                              r_noise_std=tuple(script['noise']) if script.get('noise') else None, **kw)
@@ -243,6 +244,16 @@ def real_run(script, forced=None):
         call['grad'] = [bool(t.requires_grad) for t in ts]
         call['dtype'] = sorted({str(t.dtype) for t in ts})
         call['out'] = [[float(v) for v in t.detach().flatten().tolist()] for t in ts]
+        # "usable ... differentiable points": a loss built from the samples of THIS call can be back-propagated, call after call
+        # (as a training loop does), and the gradient with respect to the samples is the expected one
+        try:
+            loss = sum((t * t).sum() for t in ts)
+            if loss.requires_grad:
+                gs = torch.autograd.grad(loss, [t for t in ts if t.requires_grad], allow_unused=True)
+                call['backward'] = 'ok' if all(g is not None and torch.allclose(g, 2 * t.detach()) for g, t in zip(gs, [t for t in ts if t.requires_grad])) else 'wrong-gradient'
+                sum((t * t).sum() for t in ts).backward()
+        except Exception as e:
+            call['backward'] = f'{type(e).__name__}: {str(e)[:120]}'
         res['calls'].append(call)
     return res
 
@@ -449,6 +460,8 @@ def property_failures(script, real):
                 continue
             if not call['grad'][d]:
                 fails.append(f'call {ci} dim {d}: requires_grad is False')
+            if d == 0 and call.get('backward', 'ok') != 'ok':
+                fails.append(f'call {ci}: a loss built from the returned samples cannot be back-propagated ({call["backward"]})')
             noisy, rep, grid = cls[d]
             if c == 'sph':
                 lo, hi = [(script['a'], script['b']), (0.0, math.pi), (0.0, 2 * math.pi)][d]
@@ -611,6 +624,12 @@ def scripts(tier, seed, accepted):
                     if rng.random() < 0.2:
                         s['noise'] = [rng.uniform(0.01, 0.5) for _ in range(k)]
                     out.append(s)
+    # GeneratorND with a scalar `base` and several axes of which only the first is exp-spaced
+    if 'exp-spaced' in accepted['nd']:
+        for others, b in ((['equally-spaced'], 2.5), (['chebyshev', 'equally-spaced'], 3.0)):
+            ms = ['exp-spaced'] + others
+            out.append(dict(cls='nd', method='+'.join(ms), methods=ms, grid=[3] + [2 + j for j in range(len(others))], mins=[0.5] * len(ms),
+                            maxs=[2.0] * len(ms), noisy=False, ncalls=2, base=[b] + [10.0] * len(others), base_scalar=True))
     # reversed bounds for the deterministic methods
     for c, k in (('g1', 1), ('g2', 2), ('g3', 3), ('nd', 2)):
         for m in accepted[c]:
